@@ -304,6 +304,13 @@ func modeSize(t *wirecodec.Table, path string, shard, nshard int, o *out) {
 					call.Buf[i] = 'r'
 				}
 				return puppet.Result{Res: "ok", N: len(call.Buf)}, true
+			case "GetXattr":
+				// an attribute value as large as the limit allows (4 MiB)
+				n := c.Ms
+				if n > 4<<20 {
+					n = 4 << 20
+				}
+				return puppet.Result{Res: "ok", Vals: map[string]any{"data": make([]byte, n)}}, true
 			case "Readdir":
 				cnt := int64(call.Args["count"].(uint32))
 				if cnt > 6<<20 {
@@ -372,16 +379,24 @@ func modeSize(t *wirecodec.Table, path string, shard, nshard int, o *out) {
 			name = "d1"
 		}
 		rpc("Twalk", wirecodec.Values{"fid": 1, "newfid": 2, "names": []string{name}})
-		if f, _ := rpc("Tlopen", wirecodec.Values{"fid": 2, "flags": 0}); f == nil || f.Name != "Rlopen" {
-			o.Findings = append(o.Findings, desc+": open failed")
-			return
-		}
 		var f *wirecodec.Frame
 		var b []byte
-		if c.Kind == "read" {
-			f, b = rpc("Tread", wirecodec.Values{"fid": 2, "offset": 0, "count": u32(c.Count)})
+		if c.Kind == "xread" {
+			if g, _ := rpc("Txattrwalk", wirecodec.Values{"fid": 2, "newfid": 5, "name": "user.big"}); g == nil || g.Name != "Rxattrwalk" {
+				o.Findings = append(o.Findings, desc+": xattrwalk failed")
+				return
+			}
+			f, b = rpc("Tread", wirecodec.Values{"fid": 5, "offset": 0, "count": u32(c.Count)})
 		} else {
-			f, b = rpc("Treaddir", wirecodec.Values{"fid": 2, "offset": 0, "count": u32(c.Count)})
+			if g, _ := rpc("Tlopen", wirecodec.Values{"fid": 2, "flags": 0}); g == nil || g.Name != "Rlopen" {
+				o.Findings = append(o.Findings, desc+": open failed")
+				return
+			}
+			if c.Kind == "read" {
+				f, b = rpc("Tread", wirecodec.Values{"fid": 2, "offset": 0, "count": u32(c.Count)})
+			} else {
+				f, b = rpc("Treaddir", wirecodec.Values{"fid": 2, "offset": 0, "count": u32(c.Count)})
+			}
 		}
 		if b == nil {
 			o.Findings = append(o.Findings, desc+": no reply (stream error: "+fmt.Sprint(rp.FR.Err)+")")
